@@ -148,6 +148,9 @@ def run_history(fam, kind, impl, rng, rec, h):
     ls.g.values = [v for v in ls.g.values
                    if not isinstance(v, float) or f32(v) == v]
     ls.g.exclude = ('iand',)
+    if conn is not None:
+        ls.fault_conn = conn
+        ls.p_refuse = 0.04
     desc = ls.describe()
     # grow first
     for _ in range(rng.randint(5, 40)):
